@@ -308,7 +308,18 @@ ItRun(e, o, pre, S, it, ops, out, t) ==
                         \o (IF front THEN ".live" ELSE ".exhausted")
              it2 == IF op \in {"n", "j", "k"} THEN ItNth(S, it, skip)
                     ELSE IF op \in {"b", "B"} THEN ItNthBack(S, it, skip) ELSE it
+             \* size_hint: lower <= remaining <= upper (when an upper bound is given); a huge value is -3
+             rem == it.b - it.f
+             hintok == /\ Len(got) = 3 /\ got[1] = 3
+                       /\ got[2] >= 0 /\ got[2] <= rem
+                       /\ (got[3] = NONE \/ got[3] = HUGERES \/ got[3] >= rem)
          IN  IF got = <<NA>> THEN Res(<< >>, 0, 0, {})
+             ELSE IF op = "h"
+             THEN (IF hintok
+                   THEN LET rest == ItRun(e, o, pre, S, it, ops, out, t + 1)
+                        IN  Res(rest.ms, rest.nb, rest.nc + 1, rest.tags \cup {pre \o "size_hint" \o (IF front THEN ".live" ELSE ".exhausted")})
+                   ELSE ResBad(Mis(e, o, pre \o "size_hint" \o (IF front THEN ".live" ELSE ".exhausted"), 0, t, got, {<<3, rem, rem>>}),
+                               {pre \o "size_hint"}))
              ELSE IF got = exp
              THEN LET rest == ItRun(e, o, pre, S, it2, ops, out, t + 1)
                   IN  Res(rest.ms, rest.nb, rest.nc + 1, rest.tags \cup {tag})
